@@ -118,7 +118,7 @@ EvProcess ==
 
 EvTrack ==
   /\ Is("track")
-  /\ seen' = IF Trace[l].ok THEN seen \cup {<<Trace[l].n, Trace[l].v>>} ELSE seen
+  /\ seen' = seen \cup {<<Trace[l].n, Trace[l].v>>}       \* also when the call reported an error: the list may hold it
   \* signature of finding F6: a block at or above a rewind point is tracked before the detector saw the acknowledgement
   /\ kfb' = IF Trace[l].ok /\ pendAck >= 0 /\ Trace[l].n >= pendAck THEN kfb \cup {<<Trace[l].n, "F6">>} ELSE kfb
   /\ l' = l + 1 /\ UNCHANGED <<t, tag, B, cv, tip, fin, st, pendAck, forks, viol>>
